@@ -69,27 +69,54 @@ def judge(prog: Program, ref: Any, run: dict[str, Any], info: dict[str, Any]) ->
         return r in final_ok or any(r.startswith(p + ":") for p in ("poller:done", "transient:ok", "jumper:pass"))
 
     latest: dict[tuple[str, int], int] = {}   # (stage, task idx) -> iteration of the latest producing execution
-    produced_log: dict[tuple[str, int], list[tuple[int, int]]] = {}   # -> [(audit seq at execution, iteration)]
+    produced_log: dict[tuple[str, int], list[tuple[int, int, str]]] = {}   # -> [(audit seq at execution, iteration, stage id)]
     claims: dict[str, list[int]] = {}
     for r in h.audit:
         if r["kind"] == "stage" and r["old"] == "NOT_STARTED" and r["new"] == "RUNNING":
             claims.setdefault(r["row_id"], []).append(r["seq"])
 
-    def latest_at_plan(e: dict[str, Any], P: str, pidx: int) -> int:
-        """Iteration of producer (P, pidx)'s latest completed execution before the consuming stage was started
-        (whether or not that execution produced the key: a value of an older iteration is stale either way)."""
+    # when did each producing execution's result become durable (its task left RUNNING for a complete status)?
+    task_done: dict[tuple[str, str], list[int]] = {}
+    rearms: dict[str, list[int]] = {}
+    for r in h.audit:
+        if r["kind"] == "task" and r["old"] == "RUNNING" and r["new"] in ("SUCCEEDED", "FAILED_CONTINUE"):
+            ti = h.task_info.get(r["row_id"]) or {}
+            task_done.setdefault((ti.get("stage", ""), ti.get("name", "")), []).append(r["seq"])
+        elif r["kind"] == "stage" and r["new"] == "NOT_STARTED" and r["old"] != "NOT_STARTED":
+            rearms.setdefault(r["row_id"], []).append(r["seq"])
+
+    def producer_state(e: dict[str, Any], P: str, pidx: int) -> tuple[int, bool]:
+        """(iteration of (P, pidx)'s latest execution whose result was durable before the consuming stage started,
+        whether P was re-armed - outputs cleared - after that and before the consumer started)."""
         cs = [c for c in claims.get(e["stage_id"], []) if c <= e["audit_seq"]]
         plan_seq = max(cs) if cs else e["audit_seq"]
-        its = [it for (q, it) in produced_log.get((P, pidx), []) if q < plan_seq]
-        return max(its) if its else -1
+        best: tuple[int, int] | None = None
+        plog = produced_log.get((P, pidx), [])
+        for j, (q, it, sid) in enumerate(plog):
+            nxt = plog[j + 1][0] if j + 1 < len(plog) else 1 << 60
+            # the completion that belongs to this execution: after it started, before the task's next execution
+            dones = [d for d in task_done.get((sid, task_name(P, pidx)), []) if q < d < nxt]
+            if not dones or dones[0] >= plan_seq:
+                continue
+            if best is None or dones[0] > best[0]:
+                best = (dones[0], it)
+        if best is None:
+            return -1, False
+        sid_p = h.ref_to_id.get(P, "")
+        cleared = any(best[0] < r < plan_seq for r in rearms.get(sid_p, []))
+        return best[1], cleared
+
+    def latest_at_plan(e: dict[str, Any], P: str, pidx: int) -> int:
+        return producer_state(e, P, pidx)[0]
 
     def produces_at(e: dict[str, Any], P: str, idx: int, k: str) -> bool:
-        """Did (P, idx)'s latest execution completed before the consuming stage started produce key k?"""
+        """Did (P, idx)'s latest execution completed before the consuming stage started produce key k, and is it
+        still in P's outputs (P not re-armed since)?"""
         t = prog.task_specs(P)[idx]
         if k not in (t.get("out") or {}):
             return False
-        it0 = latest_at_plan(e, P, idx)
-        return it0 >= 0 and not (t.get("once") and it0 > 0)
+        it0, cleared = producer_state(e, P, idx)
+        return it0 >= 0 and not cleared and not (t.get("once") and it0 > 0)
 
     for e in h.ledger:
         sref = e["stage_ref"]
@@ -116,19 +143,21 @@ def judge(prog: Program, ref: Any, run: dict[str, Any], info: dict[str, Any]) ->
                 if P == sref:
                     continue
                 # current iteration: the producer's latest producing execution so far
-                cur = latest_at_plan(e, P, pidx)   # a stage's view is fixed when it starts; iterations are per producing task
-                if cur >= 0 and it < cur:
+                cur, cleared = producer_state(e, P, pidx)   # a stage's view is fixed when it starts; iterations are per producing task
+                if (cur >= 0 and it < cur) or (cleared and it <= cur):
                     # "baked": this very stage already saw (and, through planning, persisted into its own context) the
                     # same value in an earlier run of itself; "fresh": it never held that value before
-                    baked = any(p0["stage_id"] == e["stage_id"] and p0["i"] < e["i"] and (p0.get("arm") or 0) < (e.get("arm") or 0)
-                                and p0["ctx"].get(k) == v for p0 in h.ledger)
+                    # "baked": this stage was already started (planned) once before its current start - planning
+                    # persisted the then-current ancestor values into its own context, which now win;
+                    # "fresh": first start of this stage, the stale value can only come from the ancestors' outputs
+                    baked = len([c for c in claims.get(e["stage_id"], []) if c <= e["audit_seq"]]) >= 2
                     problems.append(("stale-iteration-value", f"{e['key']} sees {k}={v!r} although {P} has since produced iteration {cur}"
-                                     + (" (value carried over in the stage's own context from its previous run)" if baked else ""),
+                                     + (" (the stage was started before: value carried over in its own context)" if baked else ""),
                                      "stale-iteration:" + ("baked" if baked else "fresh")))
                 # nearest ancestor wins on path-ordered keys
                 producers = [a for a in anc if k in prod_specs.get(a, {}) and any(produces_at(e, a, i, k) for i in prod_specs[a][k])]
                 maximal = [a for a in producers if not any(a in prog.ancestors(b) for b in producers if b != a)]
-                if maximal and P not in maximal:
+                if maximal and P not in maximal and not ((cur >= 0 and it < cur) or (cleared and it <= cur)):   # a stale value is reported as such above
                     problems.append(("farther-ancestor-wins", f"{e['key']} sees {k} from {P} although nearer producer(s) {sorted(maximal)} exist", "not-nearest"))
             # every key produced by a completed ancestor is present
             for a in sorted(anc):
@@ -156,11 +185,12 @@ def judge(prog: Program, ref: Any, run: dict[str, Any], info: dict[str, Any]) ->
                 missing = want - set(got)
                 if missing:
                     problems.append(("list-item-missing", f"{e['key']} list {k} lacks {sorted(missing)} (has {got})", "list-missing"))
-        if produced(e) and e["key"].startswith("t_"):
+        if e["key"].startswith("t_"):
             parts = e["key"].split("_")
             if len(parts) == 3 and parts[1] in prog.stages and parts[2].isdigit():
-                latest[(parts[1], int(parts[2]))] = int(e.get("it") or 0)
-                produced_log.setdefault((parts[1], int(parts[2])), []).append((e["audit_seq"], int(e.get("it") or 0)))
+                if produced(e):
+                    latest[(parts[1], int(parts[2]))] = int(e.get("it") or 0)
+                produced_log.setdefault((parts[1], int(parts[2])), []).append((e["audit_seq"], int(e.get("it") or 0), e["stage_id"]))
         if len(problems) > 6:
             break
     # de-duplicate by signature tail, keep first of each
